@@ -23,7 +23,7 @@ from props import c02
 PID = 'C04'
 TRANSLATORS = ['xsd_table', 'sync_calls']
 LEAN_MODULES = ['Pyc.Model.Sync', 'Pyc.Model.Schema']
-LEAN_PROPS = ['Pyc.Props.C04', 'Pyc.Props.C04b', 'Pyc.Props.C04c']
+LEAN_PROPS = ['Pyc.Props.C04', 'Pyc.Props.C04b', 'Pyc.Props.C04c', 'Pyc.Props.C04d']
 META = dict(
     level_text=('Proof of the per-element emission theorems over content models translated from the shipped XSD on every run + independent validation. '
                 'Pyc/Props/C04.lean proves, for unbounded numbers of children, that what the writer emits for <COLLADA>, the libraries, <source>, <mesh>, each primitive, '
